@@ -110,9 +110,37 @@ func (rpFamily) Gen(r *rand.Rand, i int, tier string) *hc.Case {
 	return rpCase(p, ops)
 }
 
+// longBucketProbe: "keeping per bucket the most recent BucketSize values" however many the bucket has seen -- here
+// 2^24 + 10 of them in one bucket of a capacity that is not a power of two.
+func longBucketProbe(c *hc.Case) {
+	start := hc.T0
+	for _, capy := range []int{3, 100} {
+		rpv := faststats.NewRollingPercentile(time.Second, 2, capy, start)
+		total := 1<<24 + 10
+		for k := 1; k <= total; k++ {
+			rpv.AddDuration(time.Duration(k), start)
+		}
+		got := rpv.SnapshotAt(start)
+		ok := len(got) == capy
+		for k := 0; ok && k < capy; k++ {
+			ok = got[k] == time.Duration(total-capy+1+k)
+		}
+		if !ok {
+			show := got
+			if len(show) > 6 {
+				show = show[len(show)-6:]
+			}
+			c.Viol = append(c.Viol, hc.Violation{Clause: "SnapshotAt returns in ascending order exactly the durations added to buckets inside the current window, keeping per bucket the most recent BucketSize values", Detail: fmt.Sprintf("capacity %d, durations 1..%d added to one bucket: snapshot has %d values ending %v, want the last %d added", capy, total, len(got), show, capy), AtOp: len(c.Ops)})
+		}
+	}
+}
+
 func (rpFamily) Exec(c *hc.Case) {
 	var p rpParams
 	must(json.Unmarshal(c.Params, &p))
+	if c.ID == 0 {
+		defer longBucketProbe(c)
+	}
 	rpv := faststats.NewRollingPercentile(time.Duration(p.W), p.N, p.Cap, hc.TimeOf(p.Start))
 	tags := map[string]bool{}
 	// oracle from the property's statement
@@ -276,6 +304,14 @@ func (pctFamily) Gen(r *rand.Rand, i int, tier string) *hc.Case {
 	s := make([]int64, n)
 	for k := range s {
 		s[k] = hc.Pick(r, int64(r.Intn(10)), int64(r.Intn(1000)), int64(time.Millisecond)*int64(r.Intn(3000)), r.Int63n(1<<53), int64(time.Second)*int64(r.Intn(90)))
+	}
+	if r.Intn(5) == 0 {
+		// durations beyond 2^53 ns that lie close together (float64 cannot tell neighbours apart there; their
+		// DIFFERENCE is small and exact).  Kept below 2^56 so that the int64 sum of a hundred of them does not wrap.
+		base := int64(1) << (54 + r.Intn(2))
+		for k := range s {
+			s[k] = base + int64(r.Intn(12))
+		}
 	}
 	var ps []float64
 	for k := 0; k < 14; k++ {
